@@ -157,6 +157,7 @@ type farm struct {
 	closing int32
 	bindIP  net.IP
 	bindP   int
+	split   int // > 0: the next TCP reply is written in two segments, the first of `split` bytes
 }
 
 func listenUDP() *net.UDPConn {
@@ -284,6 +285,12 @@ func (f *farm) datagram(c *callScript, cls string) []byte {
 		if len(c.lens) > 0 {
 			n = c.lens[0]
 			c.lens = c.lens[1:]
+		}
+		if n < 0 {
+			// TCP only: the genuine 64 bytes in two segments of -n and 64+n bytes (a pause in between): the first read
+			// returns fewer than 64 bytes, which is a wrong-length reply
+			f.split = -n
+			return m
 		}
 		if c.path == "tcp" && n == 0 {
 			n = 32 // a TCP peer cannot send an empty segment
@@ -417,7 +424,19 @@ func (f *farm) serveTCP(l *net.TCPListener, ctl string) {
 					return
 				}
 				src := conn.RemoteAddr().(*net.TCPAddr)
-				f.onRequest(c, "tcp", ctl, &net.UDPAddr{IP: src.IP, Port: src.Port}, func(b []byte) { conn.Write(b) })
+				f.onRequest(c, "tcp", ctl, &net.UDPAddr{IP: src.IP, Port: src.Port}, func(b []byte) {
+					f.rmu.Lock()
+					sp := f.split
+					f.split = 0
+					f.rmu.Unlock()
+					if sp > 0 && sp < len(b) {
+						conn.Write(b[:sp])
+						time.Sleep(f.tick / 2)
+						conn.Write(b[sp:])
+						return
+					}
+					conn.Write(b)
+				})
 				if len(c.plan) == 1 && c.plan[0].cls == "reset" {
 					conn.SetLinger(0)
 					return // deferred Close sends RST
@@ -463,7 +482,39 @@ func classify(err error) string {
 
 var fixedPortBase = 21000
 
+// jitterMonitor: a goroutine that sleeps 1 ms over and over and records by how much its wake-ups were late
+type jitterMonitor struct {
+	worst int64
+	quit  chan struct{}
+}
+
+func startJitterMonitor() *jitterMonitor {
+	j := &jitterMonitor{quit: make(chan struct{})}
+	go func() {
+		for {
+			select {
+			case <-j.quit:
+				return
+			default:
+			}
+			t0 := time.Now()
+			time.Sleep(time.Millisecond)
+			if over := int64(time.Since(t0)-time.Millisecond) / 1000; over > atomic.LoadInt64(&j.worst) {
+				atomic.StoreInt64(&j.worst, over)
+			}
+		}
+	}()
+	return j
+}
+func (j *jitterMonitor) max() int64 { return atomic.LoadInt64(&j.worst) }
+func (j *jitterMonitor) stop()      { close(j.quit) }
+
 func runScenario(sc *script, lt *layoutTables, tick time.Duration, seed int64, fixedPort int) M {
+	// timing self-check: a goroutine that sleeps 1 ms over and over records by how much its wake-ups were late while the
+	// scenario ran. A scenario whose own clockwork was disturbed by more than a fraction of a tick (other processes
+	// hogging the CPUs) proves nothing either way; the orchestrator discounts its rejection.
+	jm := startJitterMonitor()
+	defer jm.stop()
 	log := &evlog{}
 	f := newFarm(sc, lt, tick, seed, log)
 	f.bindIP = net.IPv4(127, 0, 0, 1)
@@ -613,7 +664,7 @@ func runScenario(sc *script, lt *layoutTables, tick time.Duration, seed int64, f
 	for _, c := range sc.calls {
 		exp[c.id] = M{"kind": c.expKind, "rel": c.expRel}
 	}
-	return M{"id": sc.id, "group": sc.group, "ev": out, "expect": exp, "hung": hung != 0}
+	return M{"id": sc.id, "group": sc.group, "ev": out, "expect": exp, "hung": hung != 0, "jitter_us": jm.max(), "tick_us": int64(tick / time.Microsecond)}
 }
 
 func (f *farm) callOfTag(v uint32) string {
